@@ -55,6 +55,19 @@ package slip
 //@   ensures new-big: is(result, ptr(Bignum)) ==> fresh(result)
 //@   ensures fix-or-big: is(result, Fixnum) || is(result, ptr(Bignum))
 
+// C01: an ordinary function call evaluates its argument forms in one forward pass
+// over the argument list (one evaluation in the loop body, in the caller's scope,
+// no early exit from the loop) and calls the function only after that pass has
+// run to its end: left to right, before the call. (That the form evaluated in
+// iteration i is the one in slot i is not stated: the slot may hold its compiled
+// version by then and the heap is arbitrary after earlier evaluations.)
+//@ func slip.(*Function).Eval
+//@   property C01
+//@   option trace
+//@   at-eval arguments-in-the-callers-scope: ($kind == 2 && !$inlined) ==> $scope == s
+//@   after-loop Call rangeindex+1<len(f.Args)
+//@   full-loop rangeindex+1<len(f.Args)
+
 //@ func slip.DefLambda
 //@   property C01
 //@   ensures fresh-result: fresh(result)
